@@ -7,7 +7,7 @@
    2..40 threads with seeded yields / sleeps injected at the hook points); TLC (Trace_Threads) must explain
    every hook event with the same rules and compares every numeric output with the 1-thread run.
 Python only orchestrates, counts and maps TLC's verdicts to VIOLATION lines."""
-import json, os, re
+import json, os, re, time
 from . import lib
 
 BUGS = ["nocritical", "flagfirst", "nolock", "noreduce", "noiolock", "sharedacc"]
@@ -56,6 +56,7 @@ def run(ctx):
         if not rb.violation:
             raise lib.ModelFailure("MC_Threads with protection '%s' removed does not violate any invariant: the model is vacuous" % b)
         ctx.notes.append("model with bug '%s' violates %s (as it must)" % (b, ",".join(re.findall(r"Invariant (\w+) is violated", rb.out))))
+    lib.log("C18: model checks done at %.0fs" % (time.time() - ctx.t0))
     # ---------------------------------------------------------------- 2. record
     env = {"VERIF_SEED": str(ctx.seed), "OMP_WAIT_POLICY": "passive", "GOMP_SPINCOUNT": "0", "OMP_DYNAMIC": "false", "OMP_NUM_THREADS": "4"}
     if ctx.replay:
@@ -78,6 +79,7 @@ def run(ctx):
                 os.remove(os.path.join(scratch, f))
             except OSError:
                 pass
+    lib.log("C18: recording done at %.0fs" % (time.time() - ctx.t0))
     # ---------------------------------------------------------------- 3. validate
     chunks = []
     for t in traces:
@@ -112,7 +114,12 @@ def run(ctx):
             if lib.unexplained(r2) != badl:
                 raise lib.ModelFailure("validation of %s is not repeatable: %s vs %s" % (p, badl, lib.unexplained(r2)))
         done_inst = set()
+        known_ids = {k["id"] for k in ctx.known}
         for (ln, cls) in badl:
+            if cls in known_ids:
+                # classified by the trace specification (Classify): a run that raises the thread count after set_up
+                ctx.known_hits[cls] = [x for x in ctx.known if x["id"] == cls][0]["what"]
+                continue
             sl, start = instance_slice(recs, ln)
             inst = sl[0].get("inst") if sl else None
             if inst in done_inst:
